@@ -3,6 +3,7 @@
 //!   vl-svc activated                              socket-activated server; dumps what it was given
 //!   vl-svc stdio                                  serves stdin/stdout through handle()
 //!   vl-svc listen-spaced <unix address>           thread-per-connection server whose replies carry blanks
+//!   vl-svc listen-greeter <unix address>          raw service: upgrade reply and a greeting in one write, then upper-case echo
 //!   vl-svc listener-matrix <fds|-> <own|other|junk|-> <names|-> <address>
 
 use serde_json::json;
@@ -268,6 +269,52 @@ fn main() {
                 if !a.starts_with('@') {
                     let _ = std::fs::remove_file(a.split(';').next().unwrap_or(a));
                 }
+            }
+        }
+        "listen-greeter" => {
+            // a hand-written service for `org.verif.greeter.Upgrade`: it answers the upgrade request
+            // and sends a greeting of its own in ONE write, then echoes upper-cased what it receives
+            let addr = args.get(2).expect("address");
+            let path = addr.strip_prefix("unix:").expect("unix address");
+            let _ = std::fs::remove_file(path);
+            let l = std::os::unix::net::UnixListener::bind(path).expect("bind");
+            for c in l.incoming() {
+                let Ok(mut c) = c else { continue };
+                std::thread::spawn(move || {
+                    let mut pending: Vec<u8> = vec![];
+                    let mut buf = [0u8; 8192];
+                    let mut upgraded = false;
+                    loop {
+                        if upgraded && !pending.is_empty() {
+                            let up: Vec<u8> = pending.iter().map(|b| b.to_ascii_uppercase()).collect();
+                            pending.clear();
+                            if c.write_all(&up).is_err() {
+                                break;
+                            }
+                        }
+                        if !upgraded {
+                            if let Some(p) = pending.iter().position(|b| *b == 0) {
+                                let msg: Vec<u8> = pending.drain(..=p).collect();
+                                let req: serde_json::Value = serde_json::from_slice(&msg[..msg.len() - 1]).unwrap_or(serde_json::Value::Null);
+                                let mut out = serde_json::to_vec(&json!({"parameters": {"token": req["parameters"]["token"]}})).unwrap();
+                                out.push(0);
+                                if req["upgrade"] == json!(true) {
+                                    out.extend_from_slice(vl_tsvc::GREETING);
+                                    upgraded = true;
+                                }
+                                if req["oneway"] != json!(true) && c.write_all(&out).is_err() {
+                                    break;
+                                }
+                                continue;
+                            }
+                        }
+                        match c.read(&mut buf) {
+                            Ok(0) | Err(_) => break,
+                            Ok(n) => pending.extend_from_slice(&buf[..n]),
+                        }
+                    }
+                    let _ = c.shutdown(std::net::Shutdown::Both);
+                });
             }
         }
         "resolver" => {
